@@ -6,11 +6,11 @@ package main
 
 import (
 	"fmt"
-	"sort"
-	"sync"
 	"go/constant"
 	"go/types"
+	"sort"
 	"strings"
+	"sync"
 
 	"golang.org/x/tools/go/ssa"
 )
@@ -123,7 +123,7 @@ func (fx *FnCtx) entryLockArr(key string) string { return zeroLocks }
 
 // declared lock order (lower level acquired first); see DESIGN.md C18
 var lockLevels = map[string]int{
-	"allocation.Manager.lock":                 10,
+	"allocation.Manager.lock":                   10,
 	"allocation.Allocation.channelBindingsLock": 20,
 	"allocation.Allocation.permissionsLock":     30,
 	"turn.Client.mutexTrMap":                    10,
